@@ -673,3 +673,25 @@ REG.add(Contract(MMM, "minimal_medium", "C18",
                  note="minimize_components False, or True (one medium; then at least one exchange); entry bounds of the exchanges valid, a number given for open_exchanges "
                       "finite and >= 0, the solver's feasibility tolerance finite; the bounds / constraint / objective are reverted by the "
                       "context exit (C03 / C13), which the heap model here does not replay: callers see them as modified"))
+
+
+# ---------------------------------------------------------------- the call-site form of add_mip_obj follows from its proved post-condition
+def lemmas():
+    """`mip_effect` (how add_mip_obj is seen at its call site in minimal_medium) is implied by the post-condition PROVED for it in
+    c18_mip (`_post`, over a synthetic pair of states whose trace has the shape that post-condition requires), with ISIND as
+    defined by `_isind_axiom`; one obligation per conjunct"""
+    from pyvc.engine import Engine, Obl
+    from pyvc.state import State
+    eng = Engine(REG)
+    st = State()
+    st, model = _model_t().make(st, "l_model")
+    s0 = st
+    n, e = z3.Int("l_rows_len"), z3.Const("l_rows_elem", z3.ArraySort(I, N.NP))
+    s1 = s0.setghost("trace", (("add_cons_vars", "np", n, e), ("solver.update",), ("set_linear_coefficients",)))
+    s1 = s1.setghost("objc_np", z3.Const("l_objc_np1", CMIP.OBJC))
+    obj = C4.objective_of(s0, model)
+    s1 = s1.updobj(obj.oid, **{"attr:direction": VStr(z3.Const("l_dir1", Id))})
+    E = Env({"model": model}, s0, s1, eng=eng)
+    hyps = eng.kind_axioms(s0) + eng.kind_axioms(s1) + [CMIP._post(E)] + _isind_axiom(E)
+    goal = mip_effect(E, s0, s1.setghost("mip_rows", (n, e)), model)
+    return [Obl(f"C18/lemma/minimal_medium/add_mip_obj-call-site-form.{k + 1}", hyps, g, "lemma") for k, g in enumerate(goal.children())]
